@@ -114,6 +114,9 @@ def judge_a(tree, out):
     da = z3.And([sem.defined(tree, env)] + typed)
     base = {'s': tree, 'f': tree, 'fs': tree, 'ss': out['s'], 'ff': out['f']}
     mg = sem.Q(Fraction(1, 10 ** 9) * (1 + sum(abs(Fraction(c)) for c in sem.constants(tree) if c == c and abs(c) != float('inf'))))
+    # idempotence as a structural identity (evaluated, not solver-decided): simplify(simplify(e)) is simplify(e)
+    if str(out['ss']) != str(out['s']):
+        res['fails'].append({'ob': 'simplify-not-idempotent', 'rewrite': 'ss', 'once': out['s'], 'twice': out['ss'], 'point': None})
     for k in REWRITES:
         e2 = out[k]
         src = base[k]
@@ -196,6 +199,9 @@ def replay_a(tree, fail):
     if not same:
         return False, {'why': 'not reproduced'}
     f = same[0]
+    if f['ob'] == 'simplify-not-idempotent':
+        # reproduced by the second run of the real rewriter
+        return True, {'original_text': o.get('text'), 'once': f['once'], 'twice': f['twice']}
     pt = zq.point_from_json(f['point']) if f.get('point') else {}
     d = {'original_text': o.get('text')}
 
@@ -454,7 +460,8 @@ def main(prop='C10'):
             'family': '(a) every tree of depth<=1 over {x,y,0,1,2,-0.0,0.5}, every operator (incl. binary-spelled logic) above a depth-1 tree with siblings {x,0,1}; (b) scaled-row models x 8 spellings of the coefficient',
             'functions_encoded': ['Exp::simplify', 'Exp::flatten', 'RoocParser::parse_and_transform + Linearizer::linearize (b)'],
             'solver': 'z3 %s (NRA for variable denominators)' % z3.get_version_string(), 'driver_build_s': round(build_s, 1), 'check_s': round(time.time() - t0, 1),
-            'outside': ['idempotence as a structural identity (the second application is pushed through the same value obligation instead)', 'trees deeper than the family'],
+            'outside': ['trees deeper than the family'],
+            'evaluated_not_solver_decided': ['simplify(simplify(e)) == simplify(e) as a structural identity'],
         },
         'assumptions': ['logic operators read any non-zero operand as true and yield 0/1 (language evaluator semantics)'],
     }
